@@ -545,7 +545,7 @@ impl DefragQueue {
         };
 
         // One time Operation after we received last and any middle frame
-        if let (Some(final_packet_size), Some(frame_window_size), Some(last_frame_offset), None) = (
+        if let (Some(_), Some(frame_window_size), Some(last_frame_offset), None) = (
             self.final_packet_size,
             self.frame_window_size,
             self.last_frame_offset,
@@ -565,10 +565,10 @@ impl DefragQueue {
             }
 
             // Only after we have received the last frame, and any middle frame, we know how many
-            // frames to expect and the final packet size.
-            let expected_frames = final_packet_size.div_ceil(frame_window_size);
+            // frames to expect: every frame below the last frame, plus the last frame itself.
+            let expected_frames = last_frame_offset as usize / frame_window_size + 1;
             // expected_frames is guaranteed to be <= MAX_FRAMES
-            // because final_packet_size <= MAX_PACKET_SIZE
+            // because last_frame_offset <= MAX_PACKET_SIZE
             // and     frame_window_size >= MIN_PAYLOAD_SIZE
 
             self.expected_frames = Some(expected_frames);
@@ -595,7 +595,7 @@ impl DefragQueue {
 
         // Check if we have received all frames
         if let Some(expected_frames) = self.expected_frames
-            && self.received_frames() == expected_frames
+            && self.received_all_frames(expected_frames)
         {
             self.idle = true;
             let packet_size = self.final_packet_size.unwrap_or(MAX_PACKET_SIZE);
@@ -609,8 +609,28 @@ impl DefragQueue {
         Ok(None)
     }
 
-    fn received_frames(&self) -> usize {
-        self.recv_mask.iter().map(|m| m.count_ones() as usize).sum()
+    /// Returns true if the last frame and all `expected_frames - 1` frames below it were received.
+    ///
+    /// Counting the received frames is not sufficient: a frame at or beyond the offset of the
+    /// last frame must not complete a packet whose lower part was never received.
+    fn received_all_frames(&self, expected_frames: usize) -> bool {
+        let middle_frames = expected_frames.saturating_sub(1);
+        let mut expected_mask: [BitmaskType; BITMASK_ENTRY_COUNT] = [0; BITMASK_ENTRY_COUNT];
+        for (i, entry) in expected_mask.iter_mut().enumerate() {
+            let bits = middle_frames.saturating_sub(i * BITMASK_ENTRY_BITS);
+            *entry = if bits >= BITMASK_ENTRY_BITS {
+                BitmaskType::MAX
+            } else {
+                (1 << bits) - 1
+            };
+        }
+        // The last frame uses the special last index
+        expected_mask[BITMASK_ENTRY_COUNT - 1] |= 1 << (BITMASK_ENTRY_BITS - 1);
+
+        self.recv_mask
+            .iter()
+            .zip(expected_mask)
+            .all(|(recv, expected)| recv & expected == expected)
     }
 
     pub fn is_idle(&self) -> bool {
